@@ -87,8 +87,12 @@ func (f *FaultFS) Remove(name string) error {
 	flt, bad := f.next("remove", name)
 	if bad {
 		if flt.Kind == FENOENT {
-			// somebody else removed the file: Remove truthfully answers ENOENT
+			// somebody else removed the file: the repository's Remove truthfully answers ENOENT — through
+			// StdLibOSFileManager, so that the form in which it hands the error on is the real one
 			_ = os.Remove(f.mapPath(name))
+			if err := f.real.Remove(f.mapPath(name)); err != nil {
+				return err
+			}
 			return ioErr("remove", name, syscall.ENOENT)
 		}
 		return ioErr("remove", name, syscall.EIO)
